@@ -1054,7 +1054,11 @@ func (r *caseRun) run() {
 
 		// user-iteration stack with the logical equality method
 		{
-			for _, snap := range []uint64{uint64(base.SeqNumMax), 6} {
+			snaps := []uint64{uint64(base.SeqNumMax), 6}
+			if n >= 4 && nl > 1 {
+				snaps = snaps[:1] // 4 spans: the second snapshot only with all spans in one level
+			}
+			for _, snap := range snaps {
 				var exp [3]uint64
 				for e := 0; e < 3; e++ {
 					exp[e] = coalesceModel(full[e], snap)
@@ -1339,7 +1343,7 @@ func TestCheck(t *testing.T) {
 		if !complete {
 			c.Incomplete(fmt.Sprintf("budget expired after %d of %d input sequences (enumerated in parallel, simplest first); all sequences of fewer spans than the last block were covered", done, sp.total))
 		}
-		c.Note("scope", fmt.Sprintf("all %d sequences of 1..%d input spans (6 intervals over {a,b,c,d}, non-decreasing start key, %d key sets per span): per sequence the Fragmenter, keyspan.Iter, Truncate x 6 bound pairs (x inclusive end where legal), DefragmentInternal over all physical splits at b/c, and for every assignment of the spans to <=3 levels (all 3^n for n<=3, set partitions for n=4) MergingIter, DefragmentInternal over MergingIter, the user-iteration stack at 2 snapshots and LevelIter file cuts; every iterator is probed with %d positioning paths (%d more for the small cases)", sp.total, maxN, len(menu), len(probePaths), len(deepPaths)))
+		c.Note("scope", fmt.Sprintf("all %d sequences of 1..%d input spans (6 intervals over {a,b,c,d}, non-decreasing start key, %d key sets per span): per sequence the Fragmenter, keyspan.Iter, Truncate x 6 bound pairs (x inclusive end where legal), DefragmentInternal over all physical splits at b/c, MergingIter for every assignment of the spans to <=3 levels (all 3^n for n<=3, set partitions for n=4), and per set partition DefragmentInternal over MergingIter, the user-iteration stack (2 snapshots; for 4 spans the second one only with a single level) and (n<=3) LevelIter file cuts; probe paths per iterator: %d full (n<=2 quick / n<=3 thorough), %d lite (largest n), %d more pairs of absolute positionings (n<=2)", sp.total, maxN, len(menu), len(probePaths), len(litePaths), len(deepPaths)))
 		c.Note("cases_done", done)
 	})
 }
